@@ -468,11 +468,11 @@ func (s *Script) ScriptType() string {
 	if s.IsP2PK() {
 		return ScriptTypePubKey
 	}
-	if s.IsMultiSigOut() {
-		return ScriptTypeMultiSig
-	}
 	if s.IsData() {
 		return ScriptTypeNullData
+	}
+	if s.IsMultiSigOut() {
+		return ScriptTypeMultiSig
 	}
 	if s.IsP2PKHInscription() {
 		return ScriptTypePubKeyHashInscription
